@@ -1,7 +1,12 @@
 (* Correspondence judge for C18: one call of the real ArgumentParser.save in a scratch directory.
    The case carries the model input (flags, directory before, oracle answers measured on the real
    validate / serialiser, sub-files in declaration order) and the observation (result kind,
-   directory after, whether parsing the saved path gave the configuration back). *)
+   directory after, whether parsing the saved path gave the configuration back).
+
+   The model is save_fixed (Model/SaveFS.v): check and render everything, then write.  All theorems of
+   Properties/C18.v but the read-back ones hold for EVERY input; the read-back ones are guarded by
+   alias_clash i = false (class 1 = open finding collision-with-main-unnormalised-path).
+   Proofs/C18JudgeProofs.v proves  v_class (judge1 c) = 0 -> v_model (judge1 c) = true -> v_spec (judge1 c) = true. *)
 From JV Require Import Lib.Base Model.SaveFS Spec.SaveFSSpec.
 
 Inductive okind := KOk | KPath | KRefuse | KFail.
@@ -22,51 +27,42 @@ Definition kind_of (e : option err) : okind :=
 
 Record case := { c_in : input; c_res : okind; c_fs : fs; c_reparse : bool }.
 
-Definition targets (i : input) : list name :=
-  i_main i :: (if i_multifile i then map s_name (i_subs i) else []).
+Definition failed_obs (c : case) : bool := negb (okind_eqb (c_res c) KOk).
 
+(* the model reproduces the observation: same kind of result, same directory afterwards, and (for a
+   successful save of a valid configuration) the same answer to "does it parse back" *)
 Definition model_agrees (c : case) : bool :=
   let i := c_in c in
-  let r := save i in
-  let failed_obs := negb (okind_eqb (c_res c) KOk) in
+  let r := save_fixed i in
   okind_eqb (kind_of (snd r)) (c_res c)
   && fs_same (fst r) (c_fs c)
-  && (if failed_obs || negb (i_valid i) then true
+  && (if failed_obs c || negb (i_valid i) then true
       else Bool.eqb (reparse_ok i (fst r)) (c_reparse c)).
+
+(* what the property demands of the observation alone (the model is not consulted);
+   an invalid configuration saved on request (skip_validation) cannot be expected to parse back *)
+Definition spec_holds (c : case) : bool :=
+  let i := c_in c in
+  spec_ok (i_overwrite i) (targets i) (i_fs i) (c_fs c) (failed_obs c) (c_reparse c || negb (i_valid i)).
 
 (* A finding class only explains an observation that the faithful model reproduces: a case outside
    the guard on which the implementation does something ELSE than the modelled defect gets class 9,
    which is not a listed finding (so a spec failure there is reported, not absorbed). *)
 Definition judge1 (c : case) : verdict :=
-  let i := c_in c in
-  let failed_obs := negb (okind_eqb (c_res c) KOk) in
-  let k := classify i in
+  let k := classify (c_in c) in
   {| v_model := model_agrees c;
      v_class := if N.eqb k 0 || model_agrees c then k else 9%N;
-     (* an invalid configuration saved on request (skip_validation) cannot be expected to parse *)
-     v_spec := spec_ok (i_overwrite i) (targets i) (i_fs i) (c_fs c) failed_obs
-                       (c_reparse c || negb (i_valid i)) |}.
+     v_spec := spec_holds c |}.
 
 Definition judge (cs : list case) := judge_all judge1 cs.
 
-(* ---- after fixes/C18-render-before-write.patch has been applied --------------------------------
-   Set JUDGE = "judge_fixed" in tie/props/c18.py: the model is then the repaired order (save_fixed),
-   there is no finding class left and the guard is trivial (Properties/C18.v: C18_fixed_... theorems). *)
-Definition model_fixed_agrees (c : case) : bool :=
-  let i := c_in c in
-  let r := save_fixed i in
-  let failed_obs := negb (okind_eqb (c_res c) KOk) in
-  okind_eqb (kind_of (snd r)) (c_res c)
-  && fs_same (fst r) (c_fs c)
-  && (if failed_obs || negb (i_valid i) then true
-      else Bool.eqb (reparse_ok i (fst r)) (c_reparse c)).
+(* ---- after fixes/C18-collision-realpath.patch has been applied ----------------------------------
+   Set JUDGE = "judge_fixed" and FINDING_CLASSES = {} in tie/props/c18.py: paths are then compared after
+   resolving links, the form of the target path no longer matters (i_alias := false), the guard is
+   trivially true and no finding class is left. *)
+Definition unalias (c : case) : case :=
+  {| c_in := no_alias (c_in c); c_res := c_res c; c_fs := c_fs c; c_reparse := c_reparse c |}.
 
-Definition judge1_fixed (c : case) : verdict :=
-  let i := c_in c in
-  let failed_obs := negb (okind_eqb (c_res c) KOk) in
-  {| v_model := model_fixed_agrees c;
-     v_class := 0;
-     v_spec := spec_ok (i_overwrite i) (targets i) (i_fs i) (c_fs c) failed_obs
-                       (c_reparse c || negb (i_valid i)) |}.
+Definition judge1_fixed (c : case) : verdict := judge1 (unalias c).
 
 Definition judge_fixed (cs : list case) := judge_all judge1_fixed cs.
